@@ -50,7 +50,7 @@ def dwarf_value_laws(ctx, h):
     rng = ctx.rng
     LOCV = "entry attribute ?(label == (DW_AT_location, DW_AT_frame_base, DW_AT_data_member_location, DW_AT_data_location, DW_AT_return_addr, DW_AT_static_link, DW_AT_use_location, DW_AT_vtable_elem_location, DW_AT_segment)) value ?(type == T_LOCLIST_ELEM)"
     kinds = [("raw DIE", "raw entry"), ("raw attribute", "raw entry attribute"), ("attribute", "entry ?(pos < 6) attribute"),
-             ("unit", "unit"), ("raw unit", "raw unit"), ("location-list element", LOCV), ("location operation", LOCV + " elem"),
+             ("cooked DIE", "entry"), ("unit", "unit"), ("raw unit", "raw unit"), ("location-list element", LOCV), ("location operation", LOCV + " elem"),
              ("abbreviation table", "abbrev"), ("abbreviation", "abbrev entry"), ("abbreviation attribute", "abbrev entry ?(pos < 5) attribute"),
              ("symbol", "symbol")]
     ok = 0
@@ -62,7 +62,7 @@ def dwarf_value_laws(ctx, h):
         o = elfsym.gen_symobj(rng, elfsym.TARGETS[rng.randrange(len(elfsym.TARGETS))])
         sp = os.path.join(fs.dir, "sym.o")
         open(sp, "wb").write(o.bytes())
-        files += [os.path.join(common.REPO, "tests", f) for f in ("nullptr.o", "location-list.o", "enum.o")]
+        files += [os.path.join(common.REPO, "tests", f) for f in ("nullptr.o", "location-list.o", "enum.o", "dwz-partial")]
         for path in files + [sp]:
             if not os.path.exists(path):
                 continue
@@ -77,10 +77,14 @@ def dwarf_value_laws(ctx, h):
                          "?([%s] (|L| L elem ?(pos < 14) (|X| L elem ?(pos < 14) (|Y| [X Y ?lt 1] length != [Y X ?gt 1] length))))" % P),
                         ("A == B iff B == A for two %ss" % what,
                          "?([%s] (|L| L elem ?(pos < 14) (|X| L elem ?(pos < 14) (|Y| [X Y ?eq 1] length != [Y X ?eq 1] length))))" % P)]
+                if what == "cooked DIE":
+                    # cooked DIEs reached over different import paths are excepted from the order laws (see DESIGN); what remains
+                    # is that a DIE equals itself and its copy, whatever path it carries
+                    laws = laws[:2] + [("a cooked DIE is neither < nor > itself", "entry ?(pos < 80) (|X| X X (?lt, ?gt))")]
                 obs = {"location-list element": "[address, [elem [offset, label]]]", "location operation": None,
                        "raw DIE": "offset", "unit": "offset", "raw unit": "offset", "abbreviation": "offset",
                        "abbreviation table": "offset", "symbol": "[pos, name, value]"}.get(what)
-                if obs and path in files[:len(files) - 3]:
+                if obs and path in files[:len(files) - 4]:
                     # values that show different things are different (one attribute, one file: nothing shared between them)
                     src = P if what != "location-list element" else "entry ?(pos < 30) attribute ?(label == (DW_AT_location, DW_AT_frame_base)) (|A| [A value ?(type == T_LOCLIST_ELEM)])"
                     if what == "location-list element":
@@ -216,6 +220,43 @@ def run(ctx):
                 ctx.violation("== is not transitive: %s == %s == %s but not %s == %s" % (pool[i], pool[j], pool[k], pool[i], pool[k]),
                               {"stream": "C09-trans", "input": [pool[i], pool[j], pool[k]], "theorem": "ZwVerif.C09.cst_eq_iff_key"})
     ctx.cov["dwarf_value_laws_ok"] = 0 if ctx.replay else dwarf_value_laws(ctx, h)
+    # named constants of different families are never equal, even with equal numbers: every named constant against the equal-
+    # numbered constants of three other families (the family is what the name says: DW_TAG_, DW_AT_, DW_MACINFO_, DW_MACRO_ …)
+    fam_ok = 0
+    if not ctx.replay:
+        import re as _re, collections as _co
+        vw = [zwcorr.unhx(w).decode() for w in h.words.split()[1:]]
+        named_ = [w for w in vw if _re.match(r"^(DW_[A-Z]+_|ST[TBV]_)", w)]
+        vrecs_, _ = h.run_impl_robust(["Q - " + zwcorr.hx("%s value" % w) for w in named_])
+        def fam(nm):
+            m_ = _re.match(r"(DW_[A-Z]+_|ST[TBV]_)", nm)
+            return m_.group(0) if m_ else None
+        byval = _co.defaultdict(lambda: _co.defaultdict(list))
+        for nm, r_ in zip(named_, vrecs_):
+            m_ = _re.match(r"c\(dec\|(-?\d+)\)@0", r_.res[0]) if (r_.res and not r_.err) else None
+            if m_:
+                byval[int(m_.group(1))][fam(nm)].append(nm)
+        flines, fmeta = [], []
+        for val, fams in byval.items():
+            fl = sorted(fams)
+            for f1 in fl:
+                others = [f2 for f2 in fl if f2 != f1 and not (f1.startswith("ST") and f2.startswith("ST") and f1 == f2)]
+                for f2 in (others if ctx.tier != "quick" else rng.sample(others, min(6, len(others)))) + \
+                        [f for f in others if f[:6] == f1[:6]]:          # look-alike families always: DW_MACRO_ / DW_MACINFO_, DW_DS_ / DW_DSC_
+                    a_, b_ = rng.choice(fams[f1]), rng.choice(fams[f2])
+                    flines.append("Q - " + zwcorr.hx("%s %s ?eq" % (a_, b_)))
+                    fmeta.append((a_, b_))
+        frecs, _ = h.run_impl_robust(flines)
+        for (a_, b_), r_ in zip(fmeta, frecs):
+            if r_.err or r_.soft:
+                continue
+            if r_.res:
+                ctx.violation("%s == %s holds: constants of different families, equal only in number" % (a_, b_),
+                              {"stream": "C09-vocabulary", "input": "%s %s ?eq" % (a_, b_), "got": r_.res[:1], "expected": [],
+                               "theorem": "ZwVerif.C09.unrelated_never_equal"})
+            else:
+                fam_ok += 1
+    ctx.cov["cross_family_pairs_ok"] = fam_ok
     ctx.cov["evaluations"] = stats["programs"] + len(lines)
     ctx.cov["distinct_nontrivial"] = stats["distinct_nontrivial"]
     ctx.cov["pairs_law_checked"] = laws
